@@ -3,9 +3,13 @@
  * checks / ASan), every string_view handed to an option callback lies inside the buffer, only the option targets are
  * written (guard words), no UB ("UB: ..." assertions of ir2c --ub-checks), termination (unwinding assertions).
  * A stop through the library's assertion hook is admissible. */
-#define VP_PANIC_STOP
 #include "vp.h"
+/* VP_PANIC_STOP of vp.h (a stop through the library's assertion hook is admissible), plus a reachability witness for it */
+int vp_stopped;
+void frg_panic(uint8_t *m) { (void)m; VP_WITNESS(0, "stop through the assertion hook"); vp_stopped = 1; VP_STOP(); }
+void ir2c_trap_hook(void) { vp_stopped = 1; VP_STOP(); }
 #include "c20_cmdline.h"
+#include "c20_cases.h"
 #ifndef VP_NATIVE
 void *malloc(__CPROVER_size_t);
 #endif
@@ -62,6 +66,39 @@ void harness_cmdline(void) {
 	c20_parse();
 }
 
+/* (1b) every string of length LEN over the reduced alphabet of the syntactically relevant characters
+ *   '"'  ' '  '='  'a'  'b'  '1' (a digit, for the number option)  'x' (any other byte),
+ * each byte made CONCRETE per path (path split in the harness): single-path mode does not prune infeasible branches, and with
+ * symbolic bytes every re-read of a byte by find_first/operator==/to_number forks again (LEN 5 symbolic: > 26 000 paths, no
+ * verdict in 10 min).  -DB0=k fixes byte 0 to alphabet[k] to spread one length over several queries. */
+static int c20_concretize(int v, int lo, int hi) { for(int k = lo; k < hi; k++) if(v == k) return k; return hi; }
+void harness_cmdline_alpha(void) {
+	static const uint8_t alpha[7] = { '"', ' ', '=', 'a', 'b', '1', 'x' };
+	c20_buf = (uint8_t *)malloc(LEN); c20_len = LEN;
+	for(int i = 0; i < LEN; i++) {
+		int k; VP_INPUT_RANGE(k, 0, 6);
+#ifdef B0
+		if(i == 0) { VP_ASSUME(k == B0); k = B0; } else
+#endif
+		k = c20_concretize(k, 0, 6);
+		c20_buf[i] = alpha[k];
+	}
+	c20_parse();
+}
+
+/* (1c) concrete command lines of realistic length in exact-size buffers (single path, everything folds) */
+#ifndef CASE
+#define CASE 0
+#endif
+void harness_concrete(void) {
+	const char *f = c20_cmdline_cases[CASE];      /* table generated from props/C20.py (c20_cases.h) */
+	int len = 0; while(f[len]) len++;
+	int dummy; VP_INPUT(dummy);
+	c20_buf = (uint8_t *)malloc(len); c20_len = (uint64_t)len;
+	for(int i = 0; i < len; i++) c20_buf[i] = (uint8_t)f[i];
+	c20_parse();
+}
+
 /* (2) to_number<T> on every byte string of length LEN; TY 0: int, 1: unsigned, 2: long, 3: uint64_t */
 #ifndef TY
 #define TY 0
@@ -91,7 +128,7 @@ void harness_validate_cmdline(void) {
 	static const char alpha[] = "\"\"  ==aabb12 x";
 	static uint8_t fbuf[64];
 	int n; VP_INPUT_RANGE(n, 0, 12);
-	for(int i = 0; i < 64; i++) fbuf[i] = ' ';
+	for(int i = 0; i < 64; i++) fbuf[i] = (uint8_t)" \"="[i % 3];      /* padding in which any over-reading search stops at once */
 	for(int i = 0; i < n; i++) { int k; VP_INPUT_RANGE(k, 0, (int)sizeof alpha - 2); fbuf[i] = (uint8_t)alpha[k]; }
 	c20_buf = fbuf; c20_len = (uint64_t)n;
 	c20_parse();
@@ -99,6 +136,7 @@ void harness_validate_cmdline(void) {
 void harness_validate_tonum(void) {
 	static uint8_t fbuf[64];
 	int n; VP_INPUT_RANGE(n, 0, 20);
+	for(int i = 0; i < 64; i++) fbuf[i] = 'x';
 	for(int i = 0; i < n; i++) { int k; VP_INPUT_RANGE(k, 0, 10); fbuf[i] = (uint8_t)(k < 10 ? '0' + k : 'x'); }
 	uint32_t a = 0, b = 0; uint64_t c = 0, d = 0;
 	int r0 = (int)c20_tonum_int(fbuf, (uint64_t)n, &a); VP_OBSERVE(r0); VP_OBSERVE(a);
